@@ -3,7 +3,11 @@
 #![allow(dead_code)]
 
 mod refdbus;
+mod zvx;
+mod refnames;
+mod refgv;
 mod rv;
+mod typebank;
 
 mod c01;
 mod c02;
